@@ -265,7 +265,60 @@ def run(ctx):
                             ctx.violation(f"C08:symmetry:{'complex' if cplx else 'real'}", f"{name}: verdict changes when the operands are swapped", REPLAY.format(case=case(m, "symmetric")))
                         else:
                             ctx.ob(f"{name}:symmetry:{i}x{j}", "inconclusive", "unknown")
+    bare_lhs(ctx)
     vectors(ctx)
+
+
+REPLAY_LHS = r'''
+import sys
+import sympy as sp
+from sympy.physics import units
+from symplyphysics import Quantity, assert_equal
+bad = False
+for lhs, rhs in ((5, 5), (5 * units.second, 5), (Quantity(5 * units.second), 5), (5, Quantity(5 * units.meter))):
+    try:
+        assert_equal(lhs, rhs, dimension=units.length); got = "pass"
+    except AssertionError: got = "fail"
+    except Exception as e: got = "refused:" + type(e).__name__
+    print(lhs, rhs, "dimension=length ->", got)
+    if got == "pass": bad = True     # the left operand is a bare number / a time: never a length
+if bad:
+    print("REPRODUCED"); sys.exit(1)
+'''
+
+
+def bare_lhs(ctx):
+    """the dimension keyword gives a dimension to a bare-number RIGHT operand only; the left operand keeps its own (lifted, all values)"""
+    from symplyphysics.core import approx as AP
+    from symplyphysics.core.errors import UnitsError
+    for kind in ("number", "expression"):
+        ses = Session(ctx)
+        name = f"lhs-{kind}:dimension-keyword"
+        with ses.active(), rebound(*bindings()):
+            l, r = ses.scalar("l"), ses.scalar("r")
+            A, K = ses.dim("A"), ses.dim("K")
+            zl, zr = ses.z(l), ses.z(r)
+            lhs = l if kind == "number" else l * make_quantity(sp.S.One, A)
+            Avec = [z3.RealVal(0)] * 8 if kind == "number" else A.vec
+            try:
+                paths = explore(lambda: AP.assert_equal(lhs, r, dimension=K))
+            except LiftUnsupported as e:
+                ctx.ob(name, "unencoded", str(e))
+                continue
+            cov = coverage_ok(paths)
+            ctx.ob(name + ":coverage", "discharged" if cov == "covered" else "inconclusive", cov)
+            dims_ok = z3.Or(vec_eq(erase_angle(Avec), erase_angle(K.vec)), zl == 0, zr == 0)
+            for i, p in enumerate(paths):
+                if p.kind != "ret":
+                    ctx.ob(f"{name}:path{i}", "discharged", nontrivial=False)
+                    continue
+                res, m = ses.check(p.pc + [z3.Not(dims_ok)])
+                if res == "unsat":
+                    ctx.ob(f"{name}:path{i}:pass=>dimensions", "discharged")
+                elif res == "sat":
+                    ctx.violation("C08:lhs:dimension-override", f"{name}: assertion passes although the left operand's own dimension differs from the right operand's", REPLAY_LHS)
+                else:
+                    ctx.ob(f"{name}:path{i}", "inconclusive", "unknown")
 
 
 REPLAY_VEC = r'''
